@@ -305,3 +305,43 @@ Proof.
   { induction 1 as [a b E | a b c E _ IH]; [auto|]. pose proof (Hedge a b E). lia. }
   intros a Pa. pose proof (Hpath a a Pa). lia.
 Qed.
+
+(* ------------------------------------------------------------ the fuel of the layering loop suffices *)
+Lemma filter_drop_one {A} (p : A -> bool) l x : In x l -> p x = false -> length (filter p l) < length l.
+Proof.
+  induction l as [|y l IH]; simpl; [tauto|]. intros [-> | I] Px.
+  - rewrite Px. clear. induction l as [|z l IH]; simpl; [lia|]. destruct (p z); simpl; lia.
+  - specialize (IH I Px). destruct (p y); simpl; lia.
+Qed.
+
+Lemma peel_fuel f : forall m, length m < f -> peel f m <> Err OutOfFuel.
+Proof.
+  induction f as [|f IH]; intros m Hlt; [lia|].
+  rewrite peel_unfold. cbv zeta.
+  set (ordered := map fst (filter (fun it => match snd it with [] => true | _ => false end) m)).
+  destruct ordered as [|o1 orest] eqn:Eo.
+  - destruct m; discriminate.
+  - rewrite <- Eo. set (m' := map _ _).
+    assert (Hm' : length m' < f).
+    { unfold m'. rewrite map_length.
+      assert (Io : In o1 ordered) by (rewrite Eo; left; reflexivity).
+      apply ordered_In in Io.
+      pose proof (filter_drop_one (fun it : comp * list comp => negb (mem_comp (fst it) ordered)) m (o1, []) Io) as H.
+      simpl in H. assert (Hm : mem_comp o1 ordered = true) by (apply mem_comp_In; rewrite Eo; left; reflexivity).
+      rewrite Hm in H. specialize (H eq_refl). lia. }
+    specialize (IH m' Hm'). destruct (peel f m') as [L'|e]; [discriminate|]. congruence.
+Qed.
+
+Lemma comp_layers_fuel check g cs : comp_layers check g cs <> Err OutOfFuel.
+Proof.
+  unfold comp_layers. destruct (check && _); [discriminate|].
+  assert (G : forall g m, cg_of cs g m <> Err OutOfFuel).
+  { induction g0 as [|[n ss] g0 IHg]; intros m; simpl; [discriminate|].
+    destruct (comp_of cs n); [|discriminate].
+    assert (G2 : forall ss m, cg_edges cs n ss m <> Err OutOfFuel).
+    { induction ss0 as [|s ss0 IHs]; intros m0; simpl; [discriminate|].
+      destruct (comp_of cs n); [|discriminate]. destruct (comp_of cs s); [|discriminate]. apply IHs. }
+    specialize (G2 ss m). destruct (cg_edges cs n ss m) as [m1|e]; [apply IHg | congruence]. }
+  specialize (G g (cg_init cs)). destruct (cg_of cs g (cg_init cs)) as [m|e]; [|congruence].
+  apply peel_fuel. lia.
+Qed.
